@@ -17,7 +17,9 @@ from vf.common import Check, Scratch
 from vf.trees import Tree, FIXED_MTIME
 
 LIFETIME = 1000
-AGES = [400, 990, 1010, 3000, 50]
+# clock advances: around the lifetime, and whole periods (an hour, a day, days, a week) plus a little -- an age is a
+# duration, not a time of day
+AGES = [400, 990, 1010, 3000, 50, 400, 86400 + 30, 3 * 86400 + 175, 604800 + 5, 3600, 86400 - 20]
 VIEWS = ["gopher", "gophers", "gopherp+", "gopherp$", "http", "https", "wap", "gemini", "spartan"]
 CACHEFILE = ".cache.pygopherd.dir"
 
